@@ -498,3 +498,16 @@ def run(U, rep, tier):
   r3_4(U, rep)
   r3_5(U, rep, tier)
   r3_5b(U, rep, tier)
+  r3_7(U, rep)
+
+
+def r3_7(U, rep):
+  """R3.7 [AVN, dataflow]: the differentiation inputs enter the maximal-coordinate pipelines unchanged -- `init` stores the
+  q, qd it is given (and x, xd = forward(q, qd)).  `kinematics.inverse` recovers joint angles through arccos * sign /
+  arctan2 of projections, which has no derivative at the zero-angle configuration of a multi-dof stack (the clipped
+  arccos argument is exactly 1 there): a step can only report such coordinates, but an init that passes the GIVEN q through
+  that read-back makes the gradient w.r.t. the initial joint positions wrong at q = 0, the singular input the property
+  names (shared execution with C08 R8.2)."""
+  from braxlint.props import c08
+  from braxlint.props.c16 import _Relabel
+  c08.r8_2(U, _Relabel(rep, 'R3.7'), entries=('init',))
